@@ -147,11 +147,10 @@ NonceShape == IF R1 = 0 /\ R2 = 0 THEN "bothinf"
               ELSE IF R1 = 0 THEN "r1inf"
               ELSE IF R2 = 0 THEN "r2inf"
               ELSE "generic"
-\* pairs of key ids that are negations of each other
-NegPairs == {<<i, j>> \in (1..3) \X (1..3) : i < j /\ d[i] # 0 /\ d[j] # 0 /\ d[i] = Neg(d[j])}
+\* pairs of key ids whose keys are negations of each other (P_j = -P_i)
+NegPairsOf(dd) == {<<i, j>> \in (1..3) \X (1..3) : i < j /\ dd[i] # 0 /\ dd[j] # 0 /\ dd[i] = Neg(dd[j])}
 
 (* ---------------- behaviour ---------------------------------------------- *)
-NoNonce == <<0, 0>>
 NoSess  == [regd |-> {}, comb |-> FALSE, signed |-> FALSE, got |-> {}, bad |-> {}, fin |-> "none"]
 NoAgg   == [ok |-> FALSE, Q |-> 0, gacc |-> 1, tacc |-> 0, step |-> 0]
 Call(act, p, j, res) == [act |-> act, p |-> p, j |-> j, res |-> res]
@@ -182,7 +181,7 @@ ChooseVals ==
          /\ \A i \in 1 .. 3 : (v[i] # 0) = (i <= NumIds)
          /\ \A i, j \in 1 .. NumIds : i # j => v[i] # v[j]
          /\ d' = <<v[1], v[2], v[3]>>
-    /\ phase' = "coef" /\ last' = Call("ChooseVals", 0, 0, "-")
+    /\ phase' = "coef" /\ last' = Call("ChooseVals", 0, 0, NegPairsOf(d'))
     /\ UNCHANGED <<api, keys, sort, a, tw, tapi, agg, k, b, e, sess, psig, noise>>
 
 \* the oracle's coefficient for every key that is not the second key
